@@ -159,6 +159,75 @@ def run_case(ctx, case, truth):
     return res
 
 
+def code_sharing(ctx):
+    """Contracted functions made by ONE factory (closures sharing a code object) whose contracts call each other: a call
+    of the sibling is a call of another function and is fully checked; only the function's own re-entry is not."""
+    import icontract
+    from vf.progmodel.run import drive
+
+    for is_async in (False, True):
+        for role in ("require", "ensure", "snapshot"):
+            log = []
+            box = {}
+
+            def make(name, partner):
+                def use_partner(x):
+                    if x > 0 and partner in box:
+                        r = box[partner](x - 1)
+                        if is_async:
+                            drive(r)
+
+                def pre(x):
+                    log.append("pre:" + name)
+                    if role == "require":
+                        use_partner(x)
+                    return True
+
+                def post(x, result):
+                    log.append("post:" + name)
+                    if role == "ensure":
+                        use_partner(x)
+                    return True
+
+                def cap(x):
+                    log.append("cap:" + name)
+                    if role == "snapshot":
+                        use_partner(x)
+                    return x
+
+                if is_async:
+                    @icontract.require(pre)
+                    @icontract.snapshot(cap, name="old_x")
+                    @icontract.ensure(post)
+                    async def f(x):
+                        log.append("body:" + name)
+                        return x
+                else:
+                    @icontract.require(pre)
+                    @icontract.snapshot(cap, name="old_x")
+                    @icontract.ensure(post)
+                    def f(x):
+                        log.append("body:" + name)
+                        return x
+                return f
+
+            box["a"] = make("a", "b")
+            box["b"] = make("b", "a")
+            r = box["a"](1)
+            if is_async:
+                drive(r)
+            inner = ["pre:b", "cap:b", "body:b", "post:b"]
+            want = {"require": ["pre:a"] + inner + ["cap:a", "body:a", "post:a"],
+                    "snapshot": ["pre:a", "cap:a"] + inner + ["body:a", "post:a"],
+                    "ensure": ["pre:a", "cap:a", "body:a", "post:a"] + inner}[role]
+            label = "%s functions from one factory, the %s of a calls b" % ("async" if is_async else "sync", role)
+            ctx.case(["code-sharing", is_async, role], True, sample={"directed": label, "evaluated": list(log)})
+            if log != want:
+                ctx.fail("code-sharing|%s|%s" % ("async" if is_async else "sync", role), {"code_sharing": [is_async, role]},
+                         "%s: evaluated %r, expected %r (the sibling is another function: all its contracts are checked)" % (
+                             label, log, want))
+
+
 def run(ctx, tier, seed, shard, nshards):
     import sys
 
@@ -199,10 +268,18 @@ def run(ctx, tier, seed, shard, nshards):
                 "functions": [f["name"] for f in case["program"]["funcs"]]})
 
     core.run_hypothesis(test, seed, n)
+    if shard == 0:
+        code_sharing(ctx)
 
 
 def replay(ctx, case):
     import sys
+
+    if case.get("code_sharing"):
+        before = ctx.evaluations
+        code_sharing(ctx)
+        ctx.evaluations = before
+        return
 
     sys.setrecursionlimit(60000)
     truth = {int(k): v for k, v in case["truth"].items()}
